@@ -1018,6 +1018,13 @@ func (e *Env) applyContract(call *ast.CallExpr, st *State, cl callee, ct *Contra
 			}
 		} else if fi != nil {
 			c.havocForCall(e, st, cl.fn, call)
+		} else if wr := ct.Flags["effects"]; wr != "" {
+			// assumed write set of an interface / external method
+			c.havocWriteSet(st, strings.Fields(wr))
+			old := c.heapGet(st, "$alloc", SInt)
+			n := c.freshVar("$alloc", SInt)
+			st.heap["$alloc"] = n
+			st.assume(IGe(n, old))
 		} else {
 			c.havocAll(st, "contracted external call without modifies")
 		}
